@@ -553,7 +553,7 @@ add({"name": "HfeAdapter_read_block", "file": "dfs/img_hfe.cc",
      "rules": [(NULLOPT_SB[0], NULLOPT_SB[1], 2), (r"sectors_\.size\(\)", "self->sectors_n", 1),
                (r"SectorAddress addr;", "struct SectorAddress addr;", 1),
                (r"const auto sectors_per_side\b", "const unsigned long sectors_per_side", 1),
-               (r"static_cast<unsigned char>\(", "(unsigned char)(", ">=1"),
+               (r"static_cast<unsigned char>\(", "(unsigned char)(", ">=0"),
                (r"std::vector<Sector>::const_iterator it = find_sector\(addr\);", "size_t it = HfeAdapter_find_sector(self, &addr);", 1),
                (r"it != sectors_\.cend\(\)", "it != self->sectors_n", 1),
                (r"DFS::SectorBuffer buf;", "SectorBuffer buf;", 1), (COPY256[0], COPY256[1], 1), (RET_BUF[0], RET_BUF[1], 1)]})
